@@ -46,11 +46,16 @@ class ProtocolHandler:
         if isinstance(message, list):
             return None, None  # type: ignore[return-value]
 
+        # Notifications (no id) never get a response, whatever happens
+        msg_id = getattr(message, "id", None)
+        is_notification = msg_id is None
+
         # Get method - only requests/notifications have method
         method = getattr(message, "method", None)
         if not method:
-            # Get ID if available (not on notifications)
-            msg_id = getattr(message, "id", None)
+            if is_notification:
+                logging.debug("Ignoring id-less message without a method")
+                return None, None
             return self.create_error_response(msg_id, -32600, "Invalid request"), None
 
         # Update session activity
@@ -59,21 +64,26 @@ class ProtocolHandler:
 
         handler = self._handlers.get(method)
         if not handler:
-            # Get ID if available (not on notifications)
-            msg_id = getattr(message, "id", None)
+            if is_notification:
+                logging.debug(f"Ignoring unhandled notification: {method}")
+                return None, None
             return self.create_error_response(
                 msg_id, -32601, f"Method not found: {method}"
             ), None
 
         try:
-            return await handler(message, session_id)
+            response, new_session_id = await handler(message, session_id)
         except Exception as e:
             logging.error(f"Handler error for {method}: {e}")
-            # Get ID if available (not on notifications)
-            msg_id = getattr(message, "id", None)
+            if is_notification:
+                return None, None
             return self.create_error_response(
                 msg_id, -32603, f"Internal error: {str(e)}"
             ), None
+
+        if is_notification:
+            return None, new_session_id
+        return response, new_session_id
 
     async def _handle_initialize(
         self, message: JSONRPCMessage, session_id: Optional[str]
@@ -101,6 +111,10 @@ class ProtocolHandler:
         self, message: JSONRPCMessage, session_id: Optional[str]
     ):
         """Handle initialized notification."""
+        msg_id = getattr(message, "id", None)
+        if msg_id is not None:
+            # Sent in request form: a request always gets a response
+            return self.create_response(msg_id, {}), None
         return None, None  # Notifications don't return responses
 
     async def _handle_ping(self, message: JSONRPCMessage, session_id: Optional[str]):
